@@ -8,6 +8,7 @@
   arrive in sending order too — for any number of pending events (`claims_in_order`, and the former counter-witness
   `four_events_in_order`).
 -/
+import Cobweb.Proofs.Boot
 import Cobweb.Proofs.Trackers
 import Cobweb.Theorems.C09
 import Cobweb.Theorems.C03
@@ -57,10 +58,10 @@ theorem claim_skips_others (t : TrkData) (sys d : Nat) (h : (sys, d) ∈ t.prepa
 
 /-- **Each with its own data, for every execution**: whenever a command reaches its run — in-line or replayed after a
     postponement — the trackers hold exactly the metadata this command prepared. -/
-theorem each_with_its_own_data (p : Prog) (h : Hist) {s : St} (hr : Reach p h ({} : St) s) {sys idx : Nat} {k : Kind}
+theorem each_with_its_own_data (p : Prog) (h : Hist) {s : St} {s0 : St} (hI0 : CoreInv s0) (hr : Reach p h s0 s) {sys idx : Nat} {k : Kind}
     {rest : List Frame} (hst : s.stack = Frame.runnerLookup sys k idx :: rest) :
     claimedOwn (setupK { s with stack := rest, storage := upd s.storage sys (some false), counter := s.counter + 1 } k sys) k = true :=
-  (C03.C03_all p h hr hst).1
+  (C03.C03_all p h hI0 hr hst).1
 
 example : C03.claimOrder [10, 20] { prepared := [(3, 10), (3, 20)] } 3 = [10, 20] :=
   claims_in_order 3 [10, 20] (by decide) _ rfl
